@@ -182,6 +182,109 @@ func checkC06(c *Ctx) {
 		}
 	}
 
+	// ---- the reviewed autosuggest effects happen only with the option on (K4)
+	r.Rule("C06.autosuggest-guard", "K4", "the buffer writes that forward-char / forward-word may perform (accepting a history suggestion) are dominated by a true test of the history-autosuggest option", 2)
+	optTrue := func(f *ssa.Function, at ssa.Instruction) bool {
+		bf := blockFacts(f)
+		for fc := range factsAt(bf, at) {
+			cl, ok := fc.Cond.(*ssa.Call)
+			if !ok || !fc.Val || calleeName(cl) != "(*inputrc.Config).GetBool" {
+				continue
+			}
+			if s, ok := constString(cl.Call.Args[1]); ok && s == "history-autosuggest" {
+				return true
+			}
+		}
+		return false
+	}
+	for _, site := range []string{"(*readline.Shell).insertAutosuggestPartial", "(*readline.Shell).autosuggestAccept"} {
+		f := p.Func(site)
+		if f == nil {
+			r.Unk("C06.autosuggest-guard", site, "-", "anchor not found")
+			continue
+		}
+		r.Fn(site)
+		edits := callsTo(f, false, "(*core.Line).Set", "(*core.Line).Insert", "(*core.Line).Cut", "(*core.Line).CutRune", "(*core.Line).InsertBetween", "(*core.Cursor).InsertAt")
+		inside := len(edits) > 0
+		for _, e := range edits {
+			if !optTrue(f, e) {
+				inside = false
+			}
+		}
+		if inside {
+			r.OK("C06.autosuggest-guard", site+":edits-under-option", p.Pos(f.Pos()), "every edit in the helper is under history-autosuggest == true")
+			continue
+		}
+		// otherwise every call site reachable from a movement command must be guarded
+		okAll, n := true, 0
+		for _, e := range p.callersOf(f) {
+			if e.Site == nil {
+				continue
+			}
+			isMove := false
+			for _, cmd := range movementCommands {
+				if reg.Cmds[cmd] == e.Caller.Func {
+					isMove = true
+				}
+			}
+			if !isMove {
+				continue
+			}
+			n++
+			if !optTrue(e.Caller.Func, e.Site) {
+				okAll = false
+			}
+		}
+		r.Check(okAll && n > 0, "C06.autosuggest-guard", site+":guarded", p.Pos(f.Pos()), "guarded at every movement call site", site+" can edit the buffer from a movement command without history-autosuggest being on: a pure movement inserts text")
+	}
+
+	// ---- the kill buffers own their storage (K3)
+	r.Rule("C06.buffers-own-storage", "K3", "every slice stored in the kill ring / registers is a fresh copy (string round-trip or append to an empty slice), never a view of the edit buffer — so appending to a register cannot write the line in place", 3)
+	{
+		fresh := func(v ssa.Value) (bool, string) {
+			leaves := backSlice(v, &SliceOpts{P: p, FollowParams: true, IsSource: func(x ssa.Value) bool {
+				// a conversion from string is a fresh allocation; so is append([]rune{}, …)'s first operand
+				if cv, ok := x.(*ssa.Convert); ok && typeStr(cv.X.Type()) == "string" {
+					return true
+				}
+				// the same register's previous content (append-register)
+				if lk, ok := x.(*ssa.Lookup); ok && (isFieldLoad(lk.X, "editor.Buffers", "alpha") || isFieldLoad(lk.X, "editor.Buffers", "num")) {
+					return true
+				}
+				if ex, ok := x.(*ssa.Extract); ok {
+					if lk, ok := ex.Tuple.(*ssa.Lookup); ok && (isFieldLoad(lk.X, "editor.Buffers", "alpha") || isFieldLoad(lk.X, "editor.Buffers", "num")) {
+						return true
+					}
+				}
+				return false
+			}})
+			for _, l := range leaves {
+				if l.Kind == LeafOpaque {
+					return false, fmt.Sprintf("%s [%s]", p.descValue(l.V), l.Why)
+				}
+			}
+			return len(leaves) > 0, ""
+		}
+		ep := p.Pkg("internal/editor")
+		for _, f := range p.RepoFuncs {
+			if f.Package() == nil || ep == nil || f.Package().Pkg != ep.Types {
+				continue
+			}
+			k := 0
+			eachInstr(f, func(in ssa.Instruction) {
+				mu, ok := in.(*ssa.MapUpdate)
+				if !ok || !(isFieldLoad(mu.Map, "editor.Buffers", "alpha") || isFieldLoad(mu.Map, "editor.Buffers", "num")) {
+					return
+				}
+				key := fmt.Sprintf("%s:register-store#%d", fnName(f), k)
+				k++
+				r.Fn(fnName(f))
+				ok2, why := fresh(mu.Value)
+				r.Check(ok2, "C06.buffers-own-storage", key, p.IPos(in), "stored slice is a fresh copy", "a register stores a slice that may alias the caller's buffer ("+why+"): a later append to that register overwrites the edit line in place — a pure yank changes the text")
+			})
+		}
+	}
+
 	checkC06Clamps(c)
 	checkReturnedLine(c, "C06.returned-line")
 }
